@@ -53,10 +53,36 @@
 // the mapped spelling as source IP is still seen as /ip4 by G — exercised as "mapped-source"), so that form is
 // covered inbound by hooks-direct only and outbound by both strata.
 //
-// Sensitivity (one mutation at a time in a private copy of the instrumented overlay; see props.py / report):
-// recorded at the end of this comment block by the author after the mutation runs.
+// Sensitivity. Each mutation was applied alone to a private copy of the instrumented overlay (conngater.go,
+// swarm_dial.go, upgrader/listener.go, upgrader/upgrader.go), one worker, budget 60 s; all 27 were reported within
+// 25 s (most within 5 s). Class that fired first in the default stratum mix / classes that fired with
+// C10_ONLY=full (full-stack stratum alone), where that was run:
 //
-// MUTATIONS-TRIED: see bottom of file.
+//	IPv4-mapped form bypasses BlockAddr (lookup keyed by ::ffff: text)   hook/Intercept{AddrDial,Accept}/allowed-blocked-addr/ip6-mapped
+//	                                                                     full: + dialed-blocked-addr, admitted-blocked-addr/outbound
+//	IPv4-mapped form bypasses BlockSubnet (length-strict Contains)       hook/…/allowed-blocked-subnet/ip6-mapped; full: + dialed-blocked-subnet, admitted-blocked-subnet/outbound
+//	subnet: last address excluded                                        hook/…/allowed-blocked-subnet/{ip4,ip6,ip6zone,ip6-mapped}; full: + inbound-not-closed-at-accept/subnet, dialed-…, admitted-…/inbound+outbound
+//	subnet: first address excluded                                       same classes
+//	subnet: one address beyond the last included                         hook/Intercept{AddrDial,Accept}/refused-non-matching
+//	InterceptSecured ignores inbound peers                               hook/InterceptSecured/allowed-blocked-peer; full: + inbound-blocked-peer-not-closed-after-handshake, admitted-blocked-peer/inbound
+//	InterceptAccept looks at the local address                           hook/InterceptAccept/allowed-blocked-addr, inbound-not-closed-at-accept/addr, admitted-blocked-addr/inbound
+//	BlockSubnet / BlockPeer: datastore Put skipped                       list/acked-block-missing/{subnet,peer}/restored, restart-changed-rules/…/vanished
+//	UnblockAddr: datastore Delete skipped                                list/not-blocked-listed/addr/restored, restart-changed-rules/addr/appeared, hook/…/refused-non-matching
+//	BlockAddr updates memory before the write (I/O error leaves it)      restart-changed-rules/addr/vanished
+//	UnblockPeer updates memory before the write                          restart-changed-rules/peer/appeared
+//	BlockPeer / UnblockSubnet swallow the datastore error                list/acked-block-missing/peer/restored | list/not-blocked-listed/subnet/restored (+ restart-changed-rules, admitted-blocked-peer/outbound)
+//	BlockAddr datastore key depends on the byte length of the IP         list/not-blocked-listed/addr/restored, restart-changed-rules/addr/appeared
+//	BlockSubnet persists "<ip>/32" as value                              list/acked-block-missing/subnet/restored, list/not-blocked-listed/subnet
+//	loadRules skips peers | addrs | subnets, stops after the first addr  list/acked-block-missing/<kind>/restored, restart-changed-rules/<kind>/vanished (+ hook/…, dialed-…, admitted-… restored)
+//	loadRules swallows the error of the subnet query                     list/acked-block-missing/subnet/restored
+//	swarm: InterceptAddrDial not consulted                               dialed-blocked-addr, admitted-blocked-addr/outbound
+//	swarm: InterceptPeerDial not consulted                               dialed-blocked-peer, admitted-blocked-peer/outbound
+//	swarm: addresses produced by DNS resolution are not gated            dialed-blocked-subnet, admitted-blocked-subnet/outbound (only the swarm-level oracles can see this one)
+//	gated listener: InterceptAccept not consulted                        inbound-not-closed-at-accept/addr, admitted-blocked-addr/inbound
+//	upgrader: InterceptSecured not consulted                             inbound-blocked-peer-not-closed-after-handshake, admitted-blocked-peer/inbound
+//
+// Missed: none of those tried. (A first version of the DNS mutation — gating before resolution — broke
+// connectivity altogether and was reported as harness trouble, not as a violation; it was replaced by the one above.)
 package c10
 
 import (
@@ -91,9 +117,9 @@ import (
 var forceStratum = func() int {
 	switch os.Getenv("C10_ONLY") {
 	case "full":
-		return 0
-	case "hooks":
 		return 1
+	case "hooks":
+		return 0
 	}
 	return -1
 }()
@@ -1152,7 +1178,7 @@ func run(t *testing.T, tape *simrt.Tape) *common.Outcome {
 	}
 	w.cat = append(w.cat, peerRule("P", w.ids["P"]), peerRule("Q", w.ids["Q"]))
 
-	stratum := g.Weighted(3, 1) // 0 full-stack, 1 hooks-direct
+	stratum := g.Weighted(1, 3) // 0 hooks-direct (simplest: the minimiser may move a gater-level failure there), 1 full-stack
 	if forceStratum >= 0 {
 		stratum = forceStratum
 	}
@@ -1161,10 +1187,10 @@ func run(t *testing.T, tape *simrt.Tape) *common.Outcome {
 	if secu == "tls" {
 		mode = simnet.Whole // TLS message lengths depend on crypto/rand (HARNESS_GUIDE)
 	}
-	stratumName := []string{"full-stack", "hooks-direct"}[stratum]
+	stratumName := []string{"hooks-direct", "full-stack"}[stratum]
 	o.Logf("stratum=%s link=%d security=%s", stratumName, mode, secu)
 	o.Probe("stratum-" + stratumName)
-	if stratum == 0 {
+	if stratum == 1 {
 		o.Probe("security-" + secu)
 	}
 
@@ -1176,7 +1202,7 @@ func run(t *testing.T, tape *simrt.Tape) *common.Outcome {
 		}
 		w.gater = cg
 		w.lastListed = map[string]bool{}
-		if stratum == 1 {
+		if stratum == 0 {
 			w.runHooksDirect()
 		} else {
 			fs := &fullStack{world: w, secu: secu}
